@@ -100,8 +100,14 @@ def operations(doc: dict) -> list[dict]:
                 if schema is None:
                     src = "none"
                 responses.append({"status": status, "media_type": mt_sel, "schema": schema, "source": src, "noise": bool((resp or {}).get("x-verif-noise"))})
+            opid = op.get("operationId")
+            if opid is None:
+                clean = path.replace("{", "").replace("}", "").replace("/", "_")
+                clean = clean[1:] if clean.startswith("_") else clean
+                clean = clean[:-1] if clean.endswith("_") else clean
+                opid = f"{m}_{clean}"  # the documented naming rule for operations without operationId
             ops.append({
-                "path": path, "method": m, "operationId": op.get("operationId"), "tags": op.get("tags") or [],
+                "path": path, "method": m, "operationId": opid, "tags": op.get("tags") or [],
                 "params": params, "bodies": bodies, "responses": responses, "security": bool(op.get("security")),
             })
     return ops
